@@ -146,6 +146,8 @@ func c05nRun(x *vmc.X, cfg vmc.Cfg) {
 		run  func(idx int) bool
 	}
 	var ops []op
+	var lastLocal []byte
+	lastLocalSeq := 0
 	for s := 1; s <= 3; s++ {
 		s := s
 		ops = append(ops, op{fmt.Sprintf("localPut(%d)", s), func(idx int) bool {
@@ -156,6 +158,7 @@ func c05nRun(x *vmc.X, cfg vmc.Cfg) {
 			if err == nil {
 				accepted[pay] = acc{s, now()}
 				acks = append(acks, acc{s, now()})
+				lastLocal, lastLocalSeq = sim.Val(s, pay), s
 				if s < better {
 					x.Failf("C05/node/local-put-not-refused", "%v: PutValue of sequence %d succeeded although sequence %d was acknowledged less than the maximum age ago", hist, s, better)
 					return false
@@ -182,6 +185,34 @@ func c05nRun(x *vmc.X, cfg vmc.Cfg) {
 			return true
 		}})
 	}
+	// re-publishing the identical value (what a republisher does): acknowledged, so readable for A from now
+	ops = append(ops, op{"localPut(again)", func(idx int) bool {
+		if lastLocal == nil {
+			return true
+		}
+		better := bestFresh()
+		err := l.d.PutValue(l.ctx, key, lastLocal)
+		synctest.Wait()
+		if err == nil {
+			pay := string(lastLocal[strings.IndexByte(string(lastLocal), ':')+1:])
+			accepted[pay] = acc{lastLocalSeq, now()}
+			acks = append(acks, acc{lastLocalSeq, now()})
+			rec, ok := localRead()
+			if !ok {
+				return false
+			}
+			if rec == nil {
+				x.Failf("C05/node/acked-put-not-readable", "%v: PutValue returned nil but the record is not readable", hist)
+				return false
+			}
+			return check("local read after re-publishing the same value", rec)
+		}
+		if lastLocalSeq > better {
+			x.Failf("C05/node/local-put-refused-without-better", "%v: re-publishing sequence %d refused (%v) although no better value was acknowledged within the maximum age (best %d)", hist, lastLocalSeq, err, better)
+			return false
+		}
+		return true
+	}})
 	ops = append(ops, op{"localPut(bad)", func(idx int) bool {
 		if err := l.d.PutValue(l.ctx, key, sim.Val(9, "bad")); err == nil {
 			x.Failf("C05/node/invalid-local-put-accepted", "%v: PutValue of a value the validator rejects succeeded", hist)
